@@ -658,6 +658,19 @@ class Frame:
             lv = ('lv', key, depth)
             self._iter_guard = T.and_([self._iter_guard, T.index(m, lv)])
             return key, lv, lv
+        if not self._plain_iter and it[0] in ('map', 'filtermap') and len(it) == (3 if it[0] == 'map' else 4):
+            # iterating a list that was built element-wise (a comprehension bound to a name, or returned by a helper) == iterating what the comprehension
+            # iterated, each element being the comprehension's expression (under its filter)
+            key, cond, elt = it[1], (it[2] if it[0] == 'filtermap' else TRUE), it[-1]
+            old = {x for x in T.walk(('tuple', (cond, elt))) if x[0] == 'lv' and x[1] == key}
+            if len(old) <= 1 and not any(x[0] in ('map', 'filtermap') and x[1] == key for x in T.walk(('tuple', (cond, elt)))):
+                lv = ('lv', key, depth)
+                if old and next(iter(old)) != lv:
+                    o_ = next(iter(old))
+                    cond, elt = (T.subst(t_, lambda y: lv if y == o_ else None) for t_ in (cond, elt))
+                if cond != TRUE:
+                    self._iter_guard = T.and_([self._iter_guard, cond])
+                return key, lv, elt
         if it[0] == 'items':
             key = ('items', it[1])
             lv = ('lv', key, depth)
@@ -807,7 +820,15 @@ class Frame:
             self.pending.append((T.and_(self.pc + [('atom', 'loop-return', 'bool')]), out.term))
         return FALL
 
+    @staticmethod
+    def _both_append(upd, me):
+        """if c: acc.append(a) else: acc.append(b)   ==   acc.append(a if c else b): one element per iteration either way"""
+        if upd[0] == 'gamma' and upd[2][0] == 'listappend' and upd[3][0] == 'listappend' and upd[2][1] == me and upd[3][1] == me:
+            return ('listappend', me, T.gamma(upd[1], upd[2][2], upd[3][2]), TRUE)
+        return upd
+
     def _is_append_chain(self, upd, me):
+        upd = self._both_append(upd, me)
         if upd[0] == 'call' and upd[1] == 'append' and len(upd[2]) == 2 and not upd[3] and upd[2][0] == me and upd[2][1][0] in ('list', 'tuple'):
             return True                      # acc = np.append(acc, [a, b, ...])
         if upd[0] == 'gamma' and ((upd[3] == me and upd[2][0] == 'listappend' and upd[2][1] == me) or
@@ -816,6 +837,7 @@ class Frame:
         return upd[0] == 'listappend' and upd[1] == me
 
     def _append_chain(self, upd, me, init, key):
+        upd = self._both_append(upd, me)
         if upd[0] == 'call':
             # x = np.array([]); for ..: x = np.append(x, [a, b])   ->   the per-iteration groups concatenated in loop order
             if T.strip_nd(init) in (('list', ()), ('tuple', ())):
